@@ -531,8 +531,17 @@ class TdlImpulseResponse:
         # independently for each column (second dimension), which
         # corresponds to the second dimension is the time dimension (as the
         # channel response changes in time)
-        freq_response = np.fft.fft(
-            self._get_samples_including_the_extra_zeros(), fft_size, axis=0)
+        taps = self._get_samples_including_the_extra_zeros()
+        if taps.shape[0] > fft_size:
+            # np.fft.fft would crop the impulse response to `fft_size` taps.
+            # A tap at delay d contributes exp(-2j*pi*k*d/fft_size), which is
+            # periodic in d: fold the taps modulo `fft_size` instead.
+            folded = np.zeros((fft_size, ) + taps.shape[1:], dtype=complex)
+            for start in range(0, taps.shape[0], fft_size):
+                block = taps[start:start + fft_size]
+                folded[:block.shape[0]] += block
+            taps = folded
+        freq_response = np.fft.fft(taps, fft_size, axis=0)
         return freq_response
 
     def __mul__(self, value: float) -> "TdlImpulseResponse":
